@@ -768,7 +768,11 @@ func (g *FnGen) obligeClause(kind, label, guard string, c Clause, ctx *EvalCtx, 
 	}
 	t := g.evalBool(c.E, &gc)
 	var extras []string
-	if c.Name != "" && len(gc.skolems) > 0 {
+	if c.Name != "" {
+		// collect the requested terms per bound-variable name; every remembered quantified fact is
+		// then instantiated at each combination (variables a fact does not bind are ignored)
+		terms := map[string][]string{}
+		var order []string
 		for _, h := range hints {
 			if _, ok := h.E.(ERange); ok {
 				continue
@@ -788,11 +792,40 @@ func (g *FnGen) obligeClause(kind, label, guard string, c Clause, ctx *EvalCtx, 
 			if hv.Lit != nil {
 				ht = bvLit(hv.Lit, 64)
 			}
+			if _, seen := terms[h.Name]; !seen {
+				order = append(order, h.Name)
+			}
+			terms[h.Name] = append(terms[h.Name], ht)
+		}
+		if len(order) > 0 {
+			combos := []map[string]string{{}}
+			for _, name := range order {
+				var next []map[string]string
+				for _, cm := range combos {
+					for _, t := range terms[name] {
+						m := map[string]string{}
+						for k, v := range cm {
+							m[k] = v
+						}
+						m[name] = t
+						next = append(next, m)
+					}
+				}
+				combos = next
+				if len(combos) > 64 {
+					combos = combos[:64]
+				}
+			}
 			for _, qf := range g.root().qfacts {
-				ic := qf.ctx
-				ic.instAt = map[string]string{h.Name: ht}
-				inst := g.evalBool(qf.e, &ic)
-				extras = append(extras, implies(qf.guard, inst))
+				for _, cm := range combos {
+					ic := qf.ctx
+					ic.instAt = cm
+					inst := g.evalBool(qf.e, &ic)
+					if strings.Contains(inst, "(forall ") && !strings.Contains(g.evalBoolNoInst(qf), "(forall ") {
+						continue
+					}
+					extras = append(extras, implies(qf.guard, inst))
+				}
 			}
 		}
 	}
@@ -800,4 +833,10 @@ func (g *FnGen) obligeClause(kind, label, guard string, c Clause, ctx *EvalCtx, 
 	ob.extras = extras
 	g.root().items[ob.item].Extras = extras
 	return ob
+}
+
+func (g *FnGen) evalBoolNoInst(qf QFact) string {
+	ic := qf.ctx
+	ic.instAt = nil
+	return g.evalBool(qf.e, &ic)
 }
